@@ -53,6 +53,7 @@ fn c10_letters(tier: Tier) -> Vec<Op> {
         Op::AppendCursor(0),
         Op::RenameF(1, 3),
         Op::RenameF(3, 0),
+        Op::RenameF(0, 0),
         Op::Advance,
     ];
     if tier == Tier::Thorough {
